@@ -10,7 +10,7 @@ import cli as climod
 import core
 import props.rel as rel
 
-LEVEL = "model_checking"
+LEVEL = "exploration"     # cases are drawn from the specification under the TLC seed (a sample of a large space), expected results computed by TLC
 MODES = ["live_table", "batch_table", "csv", "json", "stream_native"]
 
 
